@@ -169,7 +169,7 @@ ENTRIES = {
              "experiment-space sizes are frozen over every history on either half of any split; same name gives same id across stages. Refuted by "
              "vm_compute for the variant without mappings (the pre-repair code). The extracted model is compared after every operation with the "
              "real code on simulations prepared by the real hold-out (recorded rng), incl. h5py save/load and the reveal_plate CLI; the variant "
-             "the tree implements is detected from behaviour; the three former witnesses are corpus cases. The prepare_retrospective_simulation CLI main() is run in-process with random generator / smoother / initial-plate options and the training / test screens it writes must agree on every id (implementation-only predicate). C03_source_variant_unique: the translation of reveal_plates / mask_screen / unmask_screen (C12 link) determines which call sites pass the mappings on. prepare_retrospective_simulation.main and reveal_plate.main are re-translated too (C03_model_is_source_cli_*): the order filter / initial plate or mask / generator / random reveal / smoother / hold-out last comes from the source.",
+             "the tree implements is detected from behaviour; the three former witnesses are corpus cases. The prepare_retrospective_simulation CLI main() is run in-process with random generator / smoother / initial-plate options and the training / test screens it writes must agree on every id, and train_model.main() run on the latest stage with observed rows must hand the model exactly the ids of the screen it loaded (implementation-only predicates). C03_source_variant_unique: the translation of reveal_plates / mask_screen / unmask_screen (C12 link) determines which call sites pass the mappings on. prepare_retrospective_simulation.main and reveal_plate.main are re-translated too (C03_model_is_source_cli_*): the order filter / initial plate or mask / generator / random reveal / smoother / hold-out last comes from the source.",
         note="Trusted: Coq kernel, extraction, OCaml driver, harness. HDF5 storage is modelled as the identity. The hold-out selection is recorded "
              "from the real rng. The renumbering defect found here (reveal/mask/unmask dropped the mappings) was repaired in /repo (fix: e414171). "
              "predict_stable is a corollary stated in prose (predictions index embeddings by id; C09 proves row-wise prediction)."),
